@@ -42,9 +42,9 @@ def jobs(tier):
         J('compress', 'compress', 'c_compress', [COMP[dg]], stub=False, unwind=82, backend='cvc5', timeout=3000, tier='thorough',
           what='%s compression function == the transcription of the standard for every state and block (word-level SMT back end)' % nm)
     # SipHash-2-4, portable implementation: one job per message length 0..23 (0-2 full blocks, every tail length)
-    for n in range(0, 24):
+    for n in list(range(0, 24)) + [130, 255]:     # 130 / 255: the length byte (len mod 256) beyond 7 bits
         js.append(Job(name='siphash_plain_n%d' % n, shim='siphash', contract='c14_siphash.c', harness='h_siphash_n%d' % n, enforce=['c_siphash'], defines=['FIX_LEN=%d' % n],
-                      functions=[r'tlx::siphash_plain\('], include_dirs=[os.path.join(VERIF, 'spec')], unwind=26, timeout=900, backend=os.environ.get('SIP_BE', 'cvc5'), tier='quick',
+                      functions=[r'tlx::siphash_plain\('], include_dirs=[os.path.join(VERIF, 'spec')], unwind=max(26, n + 4), timeout=900, mode=('assert' if n > 23 else 'dfcc'), mem_gb=(6 if n > 23 else 1), backend=os.environ.get('SIP_BE', 'cvc5'), tier='quick',
                       label='complete for messages of %d bytes: all keys, all contents' % n,
                       what='siphash_plain on a %d-byte message equals SipHash-2-4 of the paper for every key and message' % n))
     return js
